@@ -74,7 +74,9 @@ def handle (line : String) : String :=
       | .error e => s!"err {showHErr e}")
     | _, _ => "bad-op"
   | ["axml", fs, p, h] => match fs.toNat?, p.toNat?, parseHex h with
-    | some filesize, some pos, some f => " ".intercalate (axmlWalk f filesize (f.length + 2) pos [])
+    | some filesize, some pos, some f =>
+      let d := axmlDoc f filesize pos 0
+      " ".intercalate (axmlWalk f filesize (f.length + 2) pos []) ++ s!" T{d.1}{if d.2 then "!" else ""}"
     | _, _, _ => "bad-op"
   | ["dbg", p, h] => match p.toNat?, parseHex h with
     | some pos, some f => (match dbgItem f pos with
